@@ -256,6 +256,9 @@ static ASMJIT_FAVOR_SIZE Error validate(InstDB::Mode mode, const BaseInst& inst,
   RegMask combined_reg_mask = 0;
   const Mem* mem_op = nullptr;
 
+  // Set when a SIMD register (or VSIB index) having a physical id in range [16..31] is used.
+  bool has_hi_vec = false;
+
   for (i = 0; i < op_count; i++) {
     const Operand_& op = operands[i];
     if (op.op_type() == OperandType::kNone) {
@@ -289,6 +292,10 @@ static ASMJIT_FAVOR_SIZE Error validate(InstDB::Mode mode, const BaseInst& inst,
 
           reg_mask = Support::bit_mask<RegMask>(reg_id);
           combined_reg_mask |= reg_mask;
+
+          if (reg_id >= 16u && Support::test(op_flags, InstDB::OpFlags::kRegXmm | InstDB::OpFlags::kRegYmm | InstDB::OpFlags::kRegZmm)) {
+            has_hi_vec = true;
+          }
         }
         else {
           if (uint32_t(validation_flags & ValidationFlags::kEnableVirtRegs) == 0) {
@@ -433,6 +440,10 @@ static ASMJIT_FAVOR_SIZE Error validate(InstDB::Mode mode, const BaseInst& inst,
             }
 
             combined_reg_mask |= Support::bit_mask<RegMask>(index_id);
+
+            if (index_id >= 16u && Support::test(op_flags, InstDB::OpFlags::kVmMask)) {
+              has_hi_vec = true;
+            }
           }
           else if (uint32_t(validation_flags & ValidationFlags::kEnableVirtRegs) == 0) {
             return make_error(Error::kIllegalVirtReg);
@@ -553,6 +564,30 @@ static ASMJIT_FAVOR_SIZE Error validate(InstDB::Mode mode, const BaseInst& inst,
       if (ASMJIT_UNLIKELY(!operands[op_count].is_none())) {
         return make_error(Error::kInvalidInstruction);
       }
+    }
+  }
+
+  // SIMD registers 16..31 can only be addressed by EVEX prefix - refuse them if this form of the instruction cannot
+  // be encoded by EVEX (the same decision is made by the register allocator when it restricts allocable registers).
+  if (has_hi_vec) {
+    bool evex_encodable = common_info.is_evex();
+
+    if (evex_encodable && common_info.is_vex() && !common_info.is_evex_compatible()) {
+      if (common_info.is_evex_kreg_only()) {
+        // EVEX encodable only if the first operand is K register (compare instructions).
+        evex_encodable = operands[0].is_mask_reg();
+      }
+      else if (common_info.is_evex_two_op_only()) {
+        // EVEX encodable only if the instruction has two operands (gather instructions).
+        evex_encodable = op_count == 2u;
+      }
+      else {
+        evex_encodable = false;
+      }
+    }
+
+    if (ASMJIT_UNLIKELY(!evex_encodable)) {
+      return make_error(Error::kInvalidPhysId);
     }
   }
 
